@@ -323,6 +323,11 @@ class ProtocolContext:
 
         assert self._loop is asyncio.get_running_loop()  # BUG is here
 
+        try:  # the FSM needs these to match the echo/reply, so dont queue the cmd without
+            _ = cmd.tx_header, cmd.rx_header
+        except exc.PacketInvalid as err:  # e.g. an inconsistent payload idx
+            raise exc.ProtocolSendFailed(f"{self}: Send failed: {err}") from err
+
         fut: _FutureT = self._loop.create_future()
         try:
             self._que.put_nowait(
